@@ -21,6 +21,32 @@ macro_rules! table {
                 _ => None,
             }
         }
+        /// typed decode, then the framed typed writer `msgs::write(&mut w, value)`
+        pub fn framed_write(name: &str, b: Vec<u8>) -> Option<Result<Vec<u8>, String>> {
+            match name {
+                $(stringify!($n) => Some(
+                    <msgs::$n as DeBolt>::from_vec(b)
+                        .and_then(|m| {
+                            let mut w: Vec<u8> = Vec::new();
+                            msgs::write(&mut w, m).map(|_| w)
+                        })
+                        .map_err(|e| format!("{:?}", e)),
+                ),)*
+                _ => None,
+            }
+        }
+        /// framed typed reader `msgs::read_message::<T>`
+        pub fn typed_read_message(name: &str, frame: Vec<u8>) -> Option<Result<Box<dyn SerBolt>, String>> {
+            match name {
+                $(stringify!($n) => Some({
+                    let mut c = vls_protocol::serde_bolt::io::Cursor::new(frame);
+                    msgs::read_message::<_, msgs::$n>(&mut c)
+                        .map(|m| Box::new(m) as Box<dyn SerBolt>)
+                        .map_err(|e| format!("{:?}", e))
+                }),)*
+                _ => None,
+            }
+        }
     };
 }
 
